@@ -6,6 +6,7 @@ VERIF=$(cd "$HERE/../.." && pwd)
 REPO=${VERIF_REPO:-/repo}
 [ $# -gt 0 ] && LIST="$@" || LIST=$(ls "$HERE"/m*.patch)
 for p in $LIST; do
+  p=$(cd "$(dirname "$p")" && pwd)/$(basename "$p")
   n=$(basename "$p" .patch)
   git -C "$REPO" apply "$p" || { echo "$n: patch does not apply"; continue; }
   (cd "$REPO" && GOFLAGS= go build ./pkg/obiformats/ 2>/dev/null) || echo "$n: DOES NOT COMPILE"
